@@ -396,3 +396,8 @@ func Run(h func()) {
 	}
 	os.Exit(0)
 }
+
+// RaceDetect switches the VM's happens-before race detector on (natively a
+// no-op: the native confirmation runs under `go test -race` semantics, i.e. a
+// replay binary built with -race).
+func RaceDetect(on bool) {}
